@@ -437,7 +437,10 @@ inline int pbt_main(int argc, char **argv, const Spec &sp) {
         else if (a == "--isolate") isolate = true;
         else if (a == "--no-isolate") isolate = false;
     }
-    std::string header = std::string("property=") + sp.property + " target=" + sp.target + " format=1\n";
+    // one harness source may be registered as several targets (e.g. the same checks under another TZ): the driver
+    // passes the registry name so that a replay file finds its way back to the right target and environment
+    const char *tname = getenv("VERIF_TARGET_NAME") && *getenv("VERIF_TARGET_NAME") ? getenv("VERIF_TARGET_NAME") : sp.target;
+    std::string header = std::string("property=") + sp.property + " target=" + tname + " format=1\n";
     std::string errfile = journal_path.empty() ? std::string() : journal_path + ".stderr";
 
     if (!replay_path.empty()) {
